@@ -423,6 +423,9 @@ def mk_vfield(base, variant, i):
     # `o?` on an Option: (Option::branch(o) as Continue).0 == (o as Some).0
     if base[0] == "call" and base[1].endswith("::branch") and "option::Option" in base[1] and len(base[2]) == 1 and variant.endswith("ControlFlow::Continue") and i == 0:
         return mk_vfield(base[2][0], "core::option::Option::Some", 0)
+    # `r?` on a Result: (Result::branch(r) as Continue).0 == (r as Ok).0
+    if base[0] == "call" and base[1].endswith("::branch") and "result::Result" in base[1] and len(base[2]) == 1 and variant.endswith("ControlFlow::Continue") and i == 0:
+        return mk_vfield(base[2][0], "core::result::Result::Ok", 0)
     # (c.then_some(v) as Some).0 == v
     if base[0] == "call" and base[1].endswith("bool>::then_some") and len(base[2]) == 2 and variant.endswith("Option::Some") and i == 0:
         return base[2][1]
